@@ -185,6 +185,35 @@ def all_triples(ops=None, leaves=None):
     return out
 
 
+QUAD_REPS = ["*", "/", "%", "+", "-", "==", "&&", "??"]     # at least one per precedence class, plus the operators most dialects print from templates
+
+
+def all_quads(gops=None, ops=None):
+    """Depth-3 trees: parent p (or a unary) over child c whose OWN operands are compound (or a leaf) on each side:
+    p(X, c(gl(a,b), gr(c,a))) and p(c(gl(a,b), gr(c,a)), X).  The text of such a child starts with the text of its
+    left operand and ends with the text of its right operand - which may themselves be parenthesised - so whether the
+    child as a whole needs parentheses cannot be told from its first and last character."""
+    ops = ops or [o for o in BINOPS if o != "~="]
+    gops = [None] + list(gops or QUAD_REPS)
+    A, B, C = ["col", None, "a"], ["col", None, "b"], ["col", None, "c"]
+
+    def g(op, x, y):
+        return x if op is None else ["bin", op, x, y]
+    out = []
+    for c in ops:
+        for gl in gops:
+            for gr in gops:
+                if gl is None and gr is None:
+                    continue        # the plain triples cover leaf operands
+                child = ["bin", c, g(gl, A, B), g(gr, C, A)]
+                for p in ops:
+                    out.append(((p, c, gl, gr, "right"), ["bin", p, B, child]))
+                    out.append(((p, c, gl, gr, "left"), ["bin", p, child, B]))
+                for u in ("neg", "not"):
+                    out.append(((u, c, gl, gr, "over"), [u, child]))
+    return out
+
+
 def unary_triples(ops=None):
     ops = ops or BINOPS
     out = []
